@@ -59,7 +59,8 @@ THEOREMS = ["seqPlace_sound", "randPlace_sound", "saPlace_initial_sound", "seqPl
             "seqPlace_documented", "randPlace_documented", "saPlace_initial_documented",
             "randPlace_complete_unit", "saPlace_initial_complete_unit",
             "hilbert_curve_exact", "hilbert_covers", "hilbertPlace_complete_unit",
-            "saStep_documented", "saPlace_documented", "saPlace_complete_unit"]
+            "saStep_documented", "saPlace_documented", "saPlace_complete_unit",
+            "seqPlace_complete_unit_default"]
 
 RULE = ("problems: 0-40 vertices (0-3 units of 1-3 resources, some needing nothing), random nets, machines 1x1..10x10 "
         "with dead chips and per-chip resource exceptions sized so that packing is tight, location constraints (also on "
